@@ -56,7 +56,7 @@ RULE = (
 ASSUMPTIONS = [
     'dictionaries are compared modulo tuple/list (the property says JSON-compatible); dict keys must be strings',
     'content equality of two models = pharmpy Model.__eq__ and equal datasets (values, columns, index, dtypes) and equal '
-    'to_dict() after sorting mapping keys and putting compartments / flows of a CompartmentalSystem in name order; '
+    'to_dict() after sorting mapping keys, putting compartments / flows of a CompartmentalSystem in name order and reading 0 and 0.0 as the same number; '
     'pairs that are == but differ in that fingerprint are counted (class eq-but-fingerprint-differs), not flagged',
     'a recipe whose order-insensitive fingerprint differs between interpreters (a transformation that is itself '
     'seed dependent) is counted (class seed-dependent-content), not flagged: the property speaks about the key of one model',
@@ -143,8 +143,8 @@ def non_json(x, path='$'):
     return f'{path}: value of type {type(x).__name__}'
 
 
-def first_diff(a, b, path='$'):
-    if type(a) is not type(b) and not (isinstance(a, (int, float)) and isinstance(b, (int, float)) and not isinstance(a, bool) and not isinstance(b, bool)):
+def first_diff(a, b, path='$', strict=False):
+    if type(a) is not type(b) and (strict or not (isinstance(a, (int, float)) and isinstance(b, (int, float)) and not isinstance(a, bool) and not isinstance(b, bool))):
         return f'{path}: {type(a).__name__} {str(a)[:80]!r} vs {type(b).__name__} {str(b)[:80]!r}'
     if isinstance(a, dict):
         if list(a.keys()) != list(b.keys()):
@@ -152,7 +152,7 @@ def first_diff(a, b, path='$'):
                 return f'{path}: keys {list(a.keys())[:8]} vs {list(b.keys())[:8]}'
         for k in a:
             if k in b:
-                r = first_diff(a[k], b[k], f'{path}.{k}')
+                r = first_diff(a[k], b[k], f'{path}.{k}', strict)
                 if r:
                     return r
         return None
@@ -160,7 +160,7 @@ def first_diff(a, b, path='$'):
         if len(a) != len(b):
             return f'{path}: length {len(a)} vs {len(b)}'
         for i, (x, y) in enumerate(zip(a, b)):
-            r = first_diff(x, y, f'{path}[{i}]')
+            r = first_diff(x, y, f'{path}[{i}]', strict)
             if r:
                 return r
         return None
@@ -831,9 +831,19 @@ DATAEDIT = st.tuples(st.integers(0, 2), _i, _i, st.integers(1, 5)).map(list)
 def RECIPE():
     from . import c05
 
-    plain = st.fixed_dictionaries(dict(start=st.integers(0, len(STARTS) - 1), steps=st.lists(STEP_SPEC, min_size=0, max_size=3), data=st.one_of(st.just([]), st.just([]), st.lists(DATAEDIT, max_size=2))))
+    start = st.sampled_from(range(len(STARTS)))
+    data = st.one_of(st.just([]), st.just([]), st.lists(DATAEDIT, max_size=2))
+    plain = st.fixed_dictionaries(dict(start=start, steps=st.lists(STEP_SPEC, min_size=0, max_size=3), data=data))
     synth = st.fixed_dictionaries(dict(synth=st.one_of(c05.DIRECT, c05.HISTORY, c05.HISTORY), steps=st.lists(STEP_SPEC, min_size=0, max_size=2), data=st.just([])))
-    return st.one_of(plain, plain, plain, plain, plain, synth, synth)
+    # structure change followed by a renaming that relabels compartments (the history class the property names)
+    par = st.integers(0, 7)
+    grow = st.tuples(st.sampled_from([op_selector(n) for n in ('add_peripheral', 'transits', 'add_lag', 'add_F', 'effect_cmt', 'metabolite', 'fo_abs')]), par, par).map(list)
+    ren = st.tuples(st.sampled_from([op_selector(n) for n in ('rename_amt', 'rename_amt', 'rename_var', 'rename_param', 'rename_amt_back')]), par, par).map(list)
+    relabel = st.fixed_dictionaries(dict(start=st.sampled_from([0, 0, 1, 3, 4, 6, 7]), steps=st.tuples(grow, ren, st.one_of(ren, grow)).map(list), data=st.just([])))
+    relabel_synth = st.fixed_dictionaries(dict(synth=st.one_of(c05.DIRECT, c05.HISTORY), steps=st.lists(ren, min_size=1, max_size=2), data=st.just([])))
+    return st.sampled_from(['plain', 'plain', 'plain', 'plain', 'synth', 'synth', 'relabel', 'relabel', 'relabel_synth']).flatmap(
+        lambda k: dict(plain=plain, synth=synth, relabel=relabel, relabel_synth=relabel_synth)[k]
+    )
 
 
 class Built:
@@ -1558,6 +1568,9 @@ def explain_dict_difference(m1, m2):
     c1, c2 = canon(d1), canon(d2)
     if json.dumps(c1, sort_keys=True, default=repr) == json.dumps(c2, sort_keys=True, default=repr):
         return 'graph-order', first_diff(d1, d2)
+    if first_diff(c1, c2) is None:
+        # equal as Python values (0 == 0.0) but not as JSON text
+        return 'number-type', first_diff(c1, c2, strict=True)
     return 'other', first_diff(c1, c2)
 
 
@@ -1575,7 +1588,7 @@ def require_same_key(m1, m2, label, info):
     if h1 != h2:
         raise Violation(
             f'same-content-different-key:{why}:{label}', observed=[h1, h2], expected='equal keys',
-            detail=f'two construction histories ({label}) give models that are == with equal datasets and equal order-insensitive to_dict(), but ModelHash differs; '
+            detail=f'two construction histories ({label}) give models that are == with equal datasets, but ModelHash differs; '
             f'to_dict() differs only in {why} at {where}; {info}',
         )
     return 'same-key' if why == 'dict-equal' else f'same-key-despite-{why}'
@@ -1667,6 +1680,8 @@ def apply_edit(model, kind, a, b):
         if not old.is_symbol():
             raise Reject('edit rv-variance: variance is not a symbol')
         others = [Expr.symbol(n) for n in model.parameters.names if Expr.symbol(n) != old and n in rvs.parameter_names]
+        if not others:
+            others = [Expr.symbol(p.name) for p in model.parameters if Expr.symbol(p.name) != old and p.init > 0]
         new = pick(others, b, 'other variance parameter')
         if isinstance(d, NormalDistribution):
             d2 = NormalDistribution.create(d.names[0], d.level, d.mean, new)
@@ -1745,8 +1760,8 @@ def CONTENT_SPEC():
         st.fixed_dictionaries(dict(mode=st.just('inverse'), recipe=RECIPE(), pair=k, a=st.integers(0, 7), b=st.integers(0, 7))),
         st.fixed_dictionaries(dict(mode=st.just('meta'), recipe=RECIPE(), what=st.integers(0, 3))),
         st.fixed_dictionaries(dict(mode=st.just('maporder'), recipe=RECIPE(), what=st.integers(0, 1))),
-        st.fixed_dictionaries(dict(mode=st.just('edit'), recipe=RECIPE(), edit=st.tuples(st.integers(0, len(EDIT_KINDS) - 1), k, k).map(list))),
-        st.fixed_dictionaries(dict(mode=st.just('edit'), recipe=RECIPE(), edit=st.tuples(st.integers(0, len(EDIT_KINDS) - 1), k, k).map(list))),
+        st.fixed_dictionaries(dict(mode=st.just('edit'), recipe=RECIPE(), edit=st.tuples(st.sampled_from(range(len(EDIT_KINDS))), k, k).map(list))),
+        st.fixed_dictionaries(dict(mode=st.just('edit'), recipe=RECIPE(), edit=st.tuples(st.sampled_from(range(len(EDIT_KINDS))), k, k).map(list))),
     )
 
 
